@@ -106,6 +106,36 @@ def run(ctx):
             i = int(np.flatnonzero(bad)[0])
             cls = "interp" if inr[i] else "clamp"
             ctx.violation(cls, f"table v{version}: P_exit(logE={loge[i]!r}, beta={beta[i]!r}) = {got[i]!r}, log-bilinear model gives {want[i]!r} ({int(bad.sum())} points)", {"version": version, "loge": float(loge[i]).hex(), "beta": float(beta[i]).hex()})
+        # ---- batch layouts: the value of a point must not depend on what else is in the batch.
+        #      one energy for the whole batch (off the nodes: what a mono-energetic run at e.g. 8.1
+        #      passes; and on a node), blocks of constant energies, sorted energies, single events
+        nl = min(n, 3000)
+        bl_, el_ = beta[:nl], loge[:nl]
+        layouts = [("one off-node energy", np.full(nl, float(rng.uniform(6, 12)))), ("one off-node energy", np.full(nl, 8.1)), ("one tabulated energy", np.full(nl, float(rng.choice(axE)))), ("energy blocks", np.repeat(rng.uniform(6, 12, 6), -(-nl // 6))[:nl]), ("sorted energies", np.sort(el_))]
+        for lname, le_ in layouts:
+            try:
+                g_ = call(bl_, le_)
+            except Exception as e:
+                ctx.exception("raises", f"table v{version}: in-table batch raised ({lname})", e, {"version": version, "layout": lname})
+                continue
+            w_ = model(pf, axE, axB, le_, bl_)
+            r_ = np.abs(g_ - w_) / w_
+            hi_ = bl_ > bmax
+            r_[hi_] = np.where(np.abs(g_[hi_] - 1.19e-7) <= 5e-3 * 1.19e-7, 0.0, 1.0)
+            ctx.count("layout", nl)
+            if not np.all(r_ <= RTOL):
+                i = int(np.flatnonzero(~(r_ <= RTOL))[0])
+                ctx.violation("interp", f"table v{version} [batch with {lname}]: P_exit(logE={le_[i]!r}, beta={bl_[i]!r}) = {g_[i]!r}, log-bilinear model gives {w_[i]!r} ({int((~(r_ <= RTOL)).sum())} of {nl} points)", {"version": version, "layout": lname, "loge": float(le_[i]).hex(), "beta": float(bl_[i]).hex()})
+        for i in range(0, min(n, 400), 7):
+            try:
+                g1 = call(beta[i : i + 1], loge[i : i + 1])
+            except Exception as e:
+                ctx.exception("raises", f"table v{version}: single-event call raised", e, {"version": version})
+                break
+            ctx.count("layout")
+            if not (g1.shape == (1,) and g1[0] == got[i]):
+                ctx.violation("interp", f"table v{version}: P_exit(logE={loge[i]!r}, beta={beta[i]!r}) evaluated alone gives {g1!r}, inside the batch {got[i]!r}", {"version": version, "layout": "single", "loge": float(loge[i]).hex(), "beta": float(beta[i]).hex()})
+                break
         lo, hi = T.neighbours_minmax(pf, axE, axB, loge, np.clip(beta, bmin, bmax))
         below = beta <= bmax
         ctx.count("bounded", n)
@@ -182,7 +212,7 @@ def run(ctx):
                 if not np.allclose(d, pf, rtol=0, atol=0):
                     ctx.observe(f"v{version}_object_table_differs_from_floored_table", True)
     ctx.exhaustive_subspaces.append("all 25 x 51 nodes of nu2tau_pexit versions 1, 2, 3")
-    for m in ("nodes", "interp", "bounded", "clamp", "reject", "history"):
+    for m in ("nodes", "layout", "interp", "bounded", "clamp", "reject", "history"):
         ctx.require(m)
     return ctx.finish(
         rule="per table version: all nodes; random (logE, beta) incl. node-aligned, cell-midpoint, below-min, above-max and one-ulp-off-the-clamp angles, logE exactly 6 and 12; a case is a distinct (version, logE, beta); non-trivial = any point (each exercises the interpolation or a clamp)",
